@@ -1,0 +1,138 @@
+//go:build verif
+
+// Contracts for the deductive checker in /verif (govc). Comment-only; ignored without the
+// "verif" build tag. The kv.* / it.* ghosts are the observer variables declared in
+// store/types/zz_contracts_verif.go: they record the single delegate call a wrapper makes.
+
+package prefix
+
+//@ func cloneAppend(bz []byte, tail []byte) (res []byte)
+//@   props C16
+//@   ensures fresh(res) && len(res) == len(bz) + len(tail)
+//@   ensures forall i int :: 0 <= i && i < len(bz) ==> res[i] == bz[i]
+//@   ensures forall i int :: 0 <= i && i < len(tail) ==> res[len(bz) + i] == tail[i]
+//@
+//@ func (s Store) key(key []byte) (res []byte)
+//@   props C16
+//@   panics string when key == nil
+//@   ensures fresh(res) && len(res) == len(s.prefix) + len(key)
+//@   ensures forall i int :: 0 <= i && i < len(s.prefix) ==> res[i] == s.prefix[i]
+//@   ensures forall i int :: 0 <= i && i < len(key) ==> res[len(s.prefix) + i] == key[i]
+//@
+//@ func (s Store) Get(key []byte) (res []byte)
+//@   props C16
+//@   modifies kv.*
+//@   panics string when key == nil
+//@   ensures kv.calls == old(kv.calls) + 1 && kv.op == 1 && kv.recv == s.parent && res == kv.ret
+//@   ensures fresh(kv.key) && len(kv.key) == len(s.prefix) + len(key)
+//@   ensures forall i int :: 0 <= i && i < len(s.prefix) ==> kv.key[i] == s.prefix[i]
+//@   ensures forall i int :: 0 <= i && i < len(key) ==> kv.key[len(s.prefix) + i] == key[i]
+//@
+//@ func (s Store) Has(key []byte) (res bool)
+//@   props C16
+//@   modifies kv.*
+//@   panics string when key == nil
+//@   ensures kv.calls == old(kv.calls) + 1 && kv.op == 2 && kv.recv == s.parent && res == kv.retb
+//@   ensures fresh(kv.key) && len(kv.key) == len(s.prefix) + len(key)
+//@   ensures forall i int :: 0 <= i && i < len(s.prefix) ==> kv.key[i] == s.prefix[i]
+//@   ensures forall i int :: 0 <= i && i < len(key) ==> kv.key[len(s.prefix) + i] == key[i]
+//@
+//@ func (s Store) Set(key, value []byte)
+//@   props C16
+//@   modifies kv.*
+//@   panics string when key == nil || value == nil
+//@   ensures kv.calls == old(kv.calls) + 1 && kv.op == 3 && kv.recv == s.parent && kv.val == value
+//@   ensures fresh(kv.key) && len(kv.key) == len(s.prefix) + len(key)
+//@   ensures forall i int :: 0 <= i && i < len(s.prefix) ==> kv.key[i] == s.prefix[i]
+//@   ensures forall i int :: 0 <= i && i < len(key) ==> kv.key[len(s.prefix) + i] == key[i]
+//@
+//@ func (s Store) Delete(key []byte)
+//@   props C16
+//@   modifies kv.*
+//@   panics string when key == nil
+//@   ensures kv.calls == old(kv.calls) + 1 && kv.op == 4 && kv.recv == s.parent
+//@   ensures fresh(kv.key) && len(kv.key) == len(s.prefix) + len(key)
+//@   ensures forall i int :: 0 <= i && i < len(s.prefix) ==> kv.key[i] == s.prefix[i]
+//@   ensures forall i int :: 0 <= i && i < len(key) ==> kv.key[len(s.prefix) + i] == key[i]
+//@
+//@ func cpIncr(bz []byte) (end []byte)
+//@   props C16
+//@   ensures (len(bz) == 0 || (forall i int :: 0 <= i && i < len(bz) ==> bz[i] == 255)) <==> end == nil
+//@   ensures end != nil ==> 1 <= len(end) && len(end) <= len(bz) && fresh(end)
+//@   ensures end != nil ==> (forall i int :: 0 <= i && i < len(end) - 1 ==> end[i] == bz[i])
+//@   ensures end != nil ==> end[len(end) - 1] == bz[len(end) - 1] + 1
+//@   ensures end != nil ==> (forall i int :: len(end) <= i && i < len(bz) ==> bz[i] == 255)
+//@
+// Iterator / ReverseIterator: the parent is asked for exactly [prefix ++ start, E) where
+// E = prefix ++ end, or the successor of the prefix (PrefixEndBytes) when end is nil; both
+// bounds are fresh buffers, so neither the store's prefix nor the caller's slices are written.
+//@ func (s Store) Iterator(start, end []byte) (r types.Iterator)
+//@   props C16
+//@   modifies kv.*, it.*
+//@   ensures kv.calls == old(kv.calls) + 1 && kv.op == 5 && kv.recv == s.parent
+//@   ensures fresh(kv.key) && len(kv.key) == len(s.prefix) + len(start)
+//@   ensures forall i int :: 0 <= i && i < len(s.prefix) ==> kv.key[i] == s.prefix[i]
+//@   ensures forall i int :: 0 <= i && i < len(start) ==> kv.key[len(s.prefix) + i] == start[i]
+//@   ensures end != nil ==> fresh(kv.val) && len(kv.val) == len(s.prefix) + len(end)
+//@   ensures end != nil ==> (forall i int :: 0 <= i && i < len(s.prefix) ==> kv.val[i] == s.prefix[i])
+//@   ensures end != nil ==> (forall i int :: 0 <= i && i < len(end) ==> kv.val[len(s.prefix) + i] == end[i])
+//@   ensures end == nil ==> ((len(s.prefix) == 0 || (forall i int :: 0 <= i && i < len(s.prefix) ==> s.prefix[i] == 255)) <==> kv.val == nil)
+//@   ensures end == nil && kv.val != nil ==> 1 <= len(kv.val) && len(kv.val) <= len(s.prefix) && fresh(kv.val)
+//@     && (forall i int :: 0 <= i && i < len(kv.val) - 1 ==> kv.val[i] == s.prefix[i])
+//@     && kv.val[len(kv.val) - 1] == s.prefix[len(kv.val) - 1] + 1
+//@     && (forall i int :: len(kv.val) <= i && i < len(s.prefix) ==> s.prefix[i] == 255)
+//@
+//@ func (s Store) ReverseIterator(start, end []byte) (r types.Iterator)
+//@   props C16
+//@   modifies kv.*, it.*
+//@   ensures kv.calls == old(kv.calls) + 1 && kv.op == 6 && kv.recv == s.parent
+//@   ensures fresh(kv.key) && len(kv.key) == len(s.prefix) + len(start)
+//@   ensures forall i int :: 0 <= i && i < len(s.prefix) ==> kv.key[i] == s.prefix[i]
+//@   ensures forall i int :: 0 <= i && i < len(start) ==> kv.key[len(s.prefix) + i] == start[i]
+//@   ensures end != nil ==> fresh(kv.val) && len(kv.val) == len(s.prefix) + len(end)
+//@   ensures end != nil ==> (forall i int :: 0 <= i && i < len(s.prefix) ==> kv.val[i] == s.prefix[i])
+//@   ensures end != nil ==> (forall i int :: 0 <= i && i < len(end) ==> kv.val[len(s.prefix) + i] == end[i])
+//@   ensures end == nil ==> ((len(s.prefix) == 0 || (forall i int :: 0 <= i && i < len(s.prefix) ==> s.prefix[i] == 255)) <==> kv.val == nil)
+//@   ensures end == nil && kv.val != nil ==> 1 <= len(kv.val) && len(kv.val) <= len(s.prefix) && fresh(kv.val)
+//@     && (forall i int :: 0 <= i && i < len(kv.val) - 1 ==> kv.val[i] == s.prefix[i])
+//@     && kv.val[len(kv.val) - 1] == s.prefix[len(kv.val) - 1] + 1
+//@     && (forall i int :: len(kv.val) <= i && i < len(s.prefix) ==> s.prefix[i] == 255)
+//@
+//@ func stripPrefix(key []byte, prefix []byte) (r []byte)
+//@   props C16
+//@   panics string when len(key) < len(prefix) || !(forall i int :: 0 <= i && i < len(prefix) ==> key[i] == prefix[i])
+//@   ensures len(r) == len(key) - len(prefix) && ref(r) == ref(key) && off(r) == off(key) + len(prefix)
+//@
+// prefixIterator: it is valid only while the parent is positioned on a key that starts with
+// the prefix; Key() returns that key with the prefix stripped; Value() the parent's value.
+//@ func newPrefixIterator(prefix, start, end []byte, parent types.Iterator) (r *prefixIterator)
+//@   props C16
+//@   modifies it.*
+//@   ensures r != nil && fresh(r) && r.iter == parent && r.prefix == prefix && r.start == start && r.end == end
+//@   ensures r.valid ==> len(prefix) <= len(it.ret) && (forall i int :: 0 <= i && i < len(prefix) ==> it.ret[i] == prefix[i])
+//@
+//@ func (iter *prefixIterator) Next()
+//@   props C16
+//@   modifies it.*, iter.valid
+//@   panics string when !old(iter.valid)
+//@   ensures iter.valid ==> it.op == 3 && it.recv == iter.iter && len(iter.prefix) <= len(it.ret) && (forall i int :: 0 <= i && i < len(iter.prefix) ==> it.ret[i] == iter.prefix[i])
+//@
+//@ func (iter *prefixIterator) Key() (key []byte)
+//@   props C16
+//@   modifies it.*
+//@   panics string when !iter.valid
+//@   panics string at_site len(it.ret) < len(iter.prefix) || !(forall i int :: 0 <= i && i < len(iter.prefix) ==> it.ret[i] == iter.prefix[i])
+//@   ensures it.calls == old(it.calls) + 1 && it.op == 3 && it.recv == iter.iter
+//@   ensures len(key) == len(it.ret) - len(iter.prefix) && ref(key) == ref(it.ret) && off(key) == off(it.ret) + len(iter.prefix)
+//@
+//@ func (iter *prefixIterator) Value() (r []byte)
+//@   props C16
+//@   modifies it.*
+//@   panics string when !iter.valid
+//@   ensures it.calls == old(it.calls) + 1 && it.op == 4 && it.recv == iter.iter && r == it.ret
+//@
+//@ func (iter *prefixIterator) Valid() (r bool)
+//@   props C16
+//@   modifies it.*
+//@   ensures r ==> iter.valid
+//@   ensures iter.valid ==> (it.calls == old(it.calls) + 1 && it.op == 1 && it.recv == iter.iter && r == it.retb)
